@@ -372,10 +372,51 @@ class Check(Property):
             logging.disable(logging.NOTSET)
         return v[:6]
 
+    def compact_modifier_probe(self):
+        """the # modifier names the compacted unit with the prefixes of the quantity's OWN registry: a registry written from scratch
+        with other prefix names, formatted after the bundled registry has used # (and the other way round), renders its own names and
+        the text parses back to an equal quantity"""
+        import pint
+        v = []
+        try:
+            for first in ("bundled", "own"):
+                a = pint.UnitRegistry()
+                b = pint.UnitRegistry(None)
+                for line in ("thousand- = 1e3 = k-", "thousandth- = 1e-3 = m-", "million- = 1e6 = M-", "meter = [length] = m", "second = [time] = s"):
+                    b.define(line)
+                order = [("bundled", a, "kilometer / second", "km / s", "millimeter"), ("own", b, "thousandmeter / second", "km / s", "thousandthmeter")]
+                if first == "own":
+                    order.reverse()
+                for label, r, long_, short_, small in order:
+                    q = r.Quantity(1500, "meter / second")
+                    for spec, want in (("#", "1.5 " + long_), ("#~", "1.5 " + short_), (".2f#", "1.50 " + long_)):
+                        try:
+                            got = format(q, spec)
+                        except Exception as exc:  # noqa: BLE001
+                            got = type(exc).__name__ + ": " + str(exc)
+                        if got != want:
+                            v.append(f"C09 format(1500 meter / second, {spec!r}) in the {label} registry ({first} registry formatted first) = {got!r}, "
+                                     f"expected {want!r}")
+                        else:
+                            try:
+                                if r.Quantity(got) != q:
+                                    v.append(f"C09 {got!r} ({label} registry, spec {spec!r}) does not parse back to 1500 meter / second")
+                            except Exception as exc:  # noqa: BLE001
+                                v.append(f"C09 {got!r} ({label} registry, spec {spec!r}) does not parse back: {type(exc).__name__}")
+                    try:
+                        got = format(r.Quantity(0.0025, "meter"), ".2f#")
+                    except Exception as exc:  # noqa: BLE001
+                        got = type(exc).__name__ + ": " + str(exc)
+                    if got != "2.50 " + small:
+                        v.append(f"C09 format(0.0025 meter, '.2f#') in the {label} registry = {got!r}, expected {'2.50 ' + small!r}")
+        except Exception as exc:  # noqa: BLE001
+            v.append(f"C09 compact-modifier probe raised {type(exc).__name__}: {exc}")
+        return v[:6]
+
     def oracle(self, c):
         if not getattr(self, "_symsrc_done", False):
             self._symsrc_done = True
-            sv = self.symbol_source_probe() + self.small_exponent_probe() + self.default_format_probe()
+            sv = self.symbol_source_probe() + self.small_exponent_probe() + self.default_format_probe() + self.compact_modifier_probe()
             if sv:
                 return sv
         if c["kind"] == "split":
